@@ -77,3 +77,43 @@ func parseChangelog(out string) (map[string]map[string]int, error) {
 	}
 	return got, nil
 }
+
+// parseRenders splits an output that contains several table renders (each: header line, `|---|` rule, rows) into the
+// row lists of the renders, cells trimmed. Rows may have different widths (cmd/git.go appends to one table).
+func parseRenders(out string) [][][]string {
+	type line struct {
+		cells []string
+		rule  bool
+	}
+	var ls []line
+	for _, l := range strings.Split(out, "\n") {
+		l = strings.TrimRight(l, " \r")
+		if !strings.HasPrefix(l, "|") {
+			continue
+		}
+		if strings.HasPrefix(l, "|-") {
+			ls = append(ls, line{rule: true})
+			continue
+		}
+		cells := strings.Split(strings.Trim(l, "|"), "|")
+		for i := range cells {
+			cells[i] = strings.TrimSpace(cells[i])
+		}
+		ls = append(ls, line{cells: cells})
+	}
+	var renders [][][]string
+	for i, l := range ls {
+		if !l.rule {
+			continue
+		}
+		var rows [][]string
+		for j := i + 1; j < len(ls) && !ls[j].rule; j++ {
+			if j+1 < len(ls) && ls[j+1].rule { // the header of the next render
+				break
+			}
+			rows = append(rows, ls[j].cells)
+		}
+		renders = append(renders, rows)
+	}
+	return renders
+}
